@@ -133,7 +133,7 @@ its result is a valuation w.r.t. the code's operators under the given input assi
 theorem evalFull_spec {c : Circuit} (h : WFU c) (asg : Asg) :
     ∃ d, evalFull c asg = .ok d ∧ IsVal3 c (asgFun asg) (valOf d) ∧
       ∀ g ∈ c.gates, (d.get? g.label).isSome = true := by
-  obtain ⟨order, hts, hperm, hord⟩ := topSort_inv_spec h
+  obtain ⟨order, hts, hperm, hord⟩ := topSort_inv_spec h.toWFG
   have hnd : order.Nodup := hperm.nodup_iff.mpr h.nodup
   have hsub : ∀ l ∈ order, l ∈ c.labels := fun l hl => hperm.mem_iff.mp hl
   have hinp : ∀ g ∈ c.gates, g.ty = INPUT →
